@@ -95,6 +95,7 @@ impl World for WatermarkWorld {
                 "probe.delay_or_lateness_bound_of_a_second_or_more",
                 "probe.stream_of_more_than_1024_arrivals",
                 "probe.events_of_two_sources",
+                "probe.timestamps_beyond_2_to_the_31",
             ],
             quick_runs: 1_500_000,
             thorough_runs: 40_000_000,
@@ -185,7 +186,10 @@ impl World for WatermarkWorld {
             l => l,
         };
         let arrivals: Vec<Arrival> = arrivals;
-        let arrivals = arrivals.into_iter().map(|a| Arrival { ts: a.ts * scale, ..a }).collect();
+        // epoch offset (swarm): real streams carry epoch milliseconds (~1.7e12), not 0..40 — arithmetic that
+        // is fine near zero may truncate or wrap beyond 2^31, 2^32 or 2^53
+        let offset = *rng.pick(&[0u64, 0, 0, 1_700_000_000_000, (1 << 31) - 20, (1u64 << 32) - 20, 1u64 << 53]);
+        let arrivals = arrivals.into_iter().map(|a| Arrival { ts: a.ts * scale + offset, ..a }).collect();
         WmTrace { hash_seed, wm, late, arrivals, tick_pattern }
     }
 
@@ -211,6 +215,9 @@ impl World for WatermarkWorld {
         obs.faulty = t.arrivals.iter().any(|a| a.clock_adv <= 0) || !t.tick_pattern.is_empty();
         if t.arrivals.iter().any(|a| a.src != t.arrivals[0].src) {
             obs.count("probe.events_of_two_sources");
+        }
+        if t.arrivals.iter().any(|a| a.ts >= 1 << 31) {
+            obs.count("probe.timestamps_beyond_2_to_the_31");
         }
         if t.arrivals.len() > 1024 {
             obs.count("probe.stream_of_more_than_1024_arrivals");
@@ -427,14 +434,17 @@ impl World for WatermarkWorld {
                 let mut c = t.clone();
                 c.arrivals[i].ts = a.ts / 2;
                 out.push(c);
+                // small steps only near zero; far from it, round to thousands instead of creeping down one by one
                 let mut c = t.clone();
-                c.arrivals[i].ts = a.ts - 1;
-                out.push(c);
+                c.arrivals[i].ts = if a.ts <= 64 { a.ts - 1 } else { a.ts / 1000 * 1000 };
+                if c.arrivals[i].ts != a.ts {
+                    out.push(c);
+                }
             }
         }
         match t.wm {
             Wm::Bounded(d) if d > 0 => {
-                for nd in [d / 2, d / 1000 * 1000, d - 1] {
+                for nd in [d / 2, d / 1000 * 1000, if d <= 64 { d - 1 } else { d }] {
                     if nd != d {
                         out.push(WmTrace { wm: Wm::Bounded(nd), ..t.clone() });
                     }
@@ -445,7 +455,7 @@ impl World for WatermarkWorld {
         }
         if let Late::Allowed(m) = t.late {
             if m > 0 {
-                for nm in [m / 2, m / 1000 * 1000, m - 1] {
+                for nm in [m / 2, m / 1000 * 1000, if m <= 64 { m - 1 } else { m }] {
                     if nm != m {
                         out.push(WmTrace { late: Late::Allowed(nm), ..t.clone() });
                     }
@@ -454,6 +464,18 @@ impl World for WatermarkWorld {
         }
         if t.hash_seed != 1 {
             out.push(WmTrace { hash_seed: 1, ..t.clone() });
+        }
+        // the whole history closer to zero
+        if let Some(m) = t.arrivals.iter().map(|a| a.ts).min() {
+            for off in [m, m / 2, 1u64 << 31] {
+                if off > 0 && off <= m {
+                    let mut c = t.clone();
+                    for a in c.arrivals.iter_mut() {
+                        a.ts -= off;
+                    }
+                    out.insert(0, c);
+                }
+            }
         }
         // the whole history in a smaller unit
         if !matches!(t.wm, Wm::Periodic(_)) {
